@@ -252,7 +252,7 @@ def replay_gen(payload):
         if not case["ext"]:
             continue          # the property speaks about extendable graphs only
         nodes = case["nodes"]
-        vn = var_names(nodes, rng, "str")
+        vn = var_names(nodes, rng, rng.choice(["str", "str", "smallint", "tuple"]))     # (small ints include the falsy node name 0)
         inv = {c: t for t, c in vn.items()}
         d = [(vn[u], vn[v]) for u, v in shuffled(case["pdag"]["dir"], rng)]
         u_ = [tuple(shuffled([vn[a], vn[b]], rng)) for a, b in shuffled(case["pdag"]["und"], rng)]
